@@ -13,6 +13,8 @@ import RosedVerif.Model.WrapFits
 import RosedVerif.Model.BridgeWrap
 import RosedVerif.Model.BridgeOps
 import RosedVerif.Model.OpsStructure
+import RosedVerif.Model.NoLossOps
+import RosedVerif.Model.BridgeEditorOps
 namespace RosedVerif.Props
 open RosedVerif RosedVerif.Spec
 
@@ -154,5 +156,39 @@ theorem C06_trailing_separator {α : Type} [DecidableEq α] (cx : Ctx α) (hs : 
           (if (o.withDefaults cx).lineSep.isSuffixOf ed.text then (o.withDefaults cx).lineSep
            else []))) :=
   wrapOpts_structure_sane cx hs ed width o hpp
+
+section C06_public
+open RosedVerif.NoLossOps RosedVerif.BridgeOps
+
+/-- **(5) at the public level**: wrapping already wrapped text to the same width with the same
+options changes nothing — code points over a stable vocabulary with space and hyphen,
+non-paragraph mode, any editor, line separator = ONE vocabulary cluster other than the hyphen.
+(The trailing-separator clause is `C06_trailing_separator`.) -/
+theorem C06_wrapOpts_idempotent_code_points {V : List (List Int)} (hV : VocabStable V = true)
+    (hsp : [0x20] ∈ V) (hhy : [0x2D] ∈ V) (hspTail : ∀ t ∈ V, (0x20 : Int) ∉ t.tail)
+    (ed : Editor (List Int)) (ht : ∀ t ∈ ed.text, t ∈ V) (w : Int) (o : Options (List Int))
+    (hpp : o.preservePara = false) (s : List Int) (hs : (o.withDefaults cxB).lineSep = [s])
+    (hsV : s ∈ V) (hshy : s ≠ [0x2D]) (hS : GoodSep V [s]) :
+    (Editor.wrapOpts cxA ed.flat w o.flat >>= fun e => Editor.wrapOpts cxA e w o.flat) =
+      Editor.wrapOpts cxA ed.flat w o.flat :=
+  wrapOpts_idempotent_code_points hV hsp hhy hspTail ed ht w o hpp s hs hsV hshy hS
+
+/-- the separator must not be the hyphen (FINDING, documented caveat of `C06_trailing_separator`):
+`"abcd"`, width 3, separator `"-"` → `"ab--cd"` → `"ab-cd"` -/
+theorem C06_wrapOpts_idempotent_needs_not_hyphen :
+    VocabStable [[0x61], [0x62], [0x63], [0x64], [0x20], [0x2D]] = true ∧
+    (Editor.wrapOpts cxA (.root [0x61, 0x62, 0x63, 0x64] {}) 3 { lineSep := [0x2D] }).map
+        Editor.text = .ok [0x61, 0x62, 0x2D, 0x2D, 0x63, 0x64] ∧
+    (Editor.wrapOpts cxA (.root [0x61, 0x62, 0x63, 0x64] {}) 3 { lineSep := [0x2D] } >>=
+      fun e => Editor.wrapOpts cxA e 3 { lineSep := [0x2D] }).map Editor.text =
+        .ok [0x61, 0x62, 0x2D, 0x63, 0x64] :=
+  wrapOpts_idem_needs_not_hyphen
+
+/-- `[0x2D] ∈ V` restricts no text: the hyphen can be added to every stable vocabulary with the space -/
+theorem C06_hyphen_can_be_added {V : List (List Int)} (hV : VocabStable V = true)
+    (hsp : [0x20] ∈ V) : VocabStable ([0x2D] :: V) = true :=
+  vocabStable_cons_hyphen hV hsp
+
+end C06_public
 
 end RosedVerif.Props
